@@ -291,12 +291,50 @@ def d3_archives(ctx):
     ctx.check(rule, 'input/pandas.py:load_df#strict-csv', not bad, 'default (strict) csv parsing', 'lenient csv options %s' % [b.arg for b in bad])
 
 
+def d5_short_read_leaves_record_loop(ctx):
+    """A short read means the file ends inside a record.  The handler has to leave the RECORD loop (or raise): a `break` that sits in a
+    for-loop nested in the record loop only leaves that inner loop, the record loop goes on reading at a misaligned / exhausted position and
+    what it then drops or builds belongs to other (complete) records."""
+    rule = 'C18-D1'
+    n = 0
+    for mn in ('input.openQCD', 'input.misc', 'input.bdio', 'input.hadrons', 'input.sfcf'):
+        try:
+            m = ctx.repo.mod(mn)
+        except Exception:
+            continue
+        for q, f in m.functions():
+            for node in walk(f):
+                if m.enclosing_func(node) is not f or not (isinstance(node, ast.If) and node.body and isinstance(node.body[-1], ast.Break)):
+                    continue
+                if not any(isinstance(c, ast.Call) and call_name(c) == 'len' for c in ast.walk(node.test)):
+                    continue
+                loops = []
+                qn = m.parents.get(node)
+                while qn is not None and qn is not f:
+                    if isinstance(qn, (ast.For, ast.While)):
+                        loops.append(qn)
+                    qn = m.parents.get(qn)
+                if not loops:
+                    continue
+                n += 1
+                key = '%s:%s#short-read-break[%s]' % (m.relpath.replace('pyerrors/', ''), q, unparse(node.test)[:30])
+                outer_while = [lp for lp in loops[1:] if isinstance(lp, ast.While)]
+                if isinstance(loops[0], ast.For) and outer_while:
+                    ctx.violated(rule, key, 'the short-read handler `if %s: ... break` leaves only the inner `for %s in %s`; the record loop `while %s` goes on after an incomplete '
+                                 'record: the following reads return nothing and complete configurations are dropped or built from nothing' % (
+                                     unparse(node.test), unparse(loops[0].target), unparse(loops[0].iter)[:30], unparse(outer_while[0].test)), m.loc(node))
+                else:
+                    ctx.holds(rule, key, 'the short-read handler leaves the record loop')
+    ctx.floor('C18-D1 short-read handlers that break', n, 3)
+
+
 def run(ctx):
     ctx.rule('C18-D1', 'checked use of binary reads (symbolic struct sizes), no swallowing handler')
     ctx.rule('C18-D2', 'text records complete before parsing')
     ctx.rule('C18-D3', 'archives parsed whole, strictly')
     ctx.not_decided += ['behaviour of gzip / rapidjson / lxml / pandas on every possible cut (library contracts)', 'hdf5 files']
     ctx.guarded('C18-D1', 'readers@binary', d1_binary, ctx)
+    ctx.guarded('C18-D1', 'readers@short-read-exit', d5_short_read_leaves_record_loop, ctx)
     ctx.guarded('C18-D2', 'sfcf@text', d2_text, ctx)
     ctx.guarded('C18-D2', 'input@extent-and-readinto', d4_extent_and_readinto, ctx)
     ctx.guarded('C18-D3', 'archives', d3_archives, ctx)
